@@ -1,1 +1,352 @@
-/-! STUB — property C08 is not built yet. -/
+import Martian.Lemmas.H2Relay
+import Martian.Generated.H2Relay
+/-!
+C08 — HTTP/2 relay delivers each stream's frames faithfully for any framing and order.
+
+Theorems about the model of `h2/relay.go` + `h2/queued_frames.go` (`Model/H2Relay.lean`):
+* `dispatch_units`: CONTINUATION reassembly — for every RFC-valid frame sequence of one direction
+  (`FUnit`s: self-contained frames, or HEADERS / PUSH_PROMISE followed by any number of
+  CONTINUATIONs cut anywhere), `processFrame` makes exactly one sink call per unit, with the
+  concatenated block, END_STREAM / priority / promised id of the opening frame, the same reset
+  codes and priorities; SETTINGS, PING, GOAWAY become direct writes with identical contents.
+* `accepted_is_image_of_calls`, `data_split_faithful`, `chunks_concat`: what the sinks enqueue.
+* `per_stream_order_and_content` (= no loss, no duplication, per-stream order): for ANY history of
+  sink calls interleaved with ANY window schedule and any map iteration orders, on every stream
+  `emitted ++ still queued = image of the calls`.
+* header blocks and HPACK: `HeaderBlocksLeaveInEncodeOrder` is FALSE for the code as it is (F08b,
+  `header_blocks_leave_in_encode_order_counterexample`); it holds for every history that never
+  encodes a block while an earlier one is queued on another stream (`…_partial`).
+* `priority_flag_partial` / `_counterexample` (F08d): an all-zero priority loses its flag.
+Only property theorems and non-vacuity examples live here.
+-/
+namespace Martian.Props.C08
+open Martian Martian.H2Relay
+
+/-! ## Framing: CONTINUATION reassembly and dispatch -/
+
+/-- A self-contained frame: not a CONTINUATION, and a HEADERS / PUSH_PROMISE has END_HEADERS. -/
+def complete : Frame → Bool
+  | .continuation .. => false
+  | .headers _ _ eh _ _ => eh
+  | .pushPromise _ _ eh _ => eh
+  | _ => true
+
+/-- RFC 7540 §4.3 / §6.10: the units a valid frame sequence of one direction consists of. -/
+inductive FUnit
+  | single (f : Frame)
+  | hblock (sid : Nat) (es : Bool) (prio : Option Prio) (first : Bytes) (mid : List Bytes) (last : Bytes)
+  | pblock (sid promised : Nat) (first : Bytes) (mid : List Bytes) (last : Bytes)
+
+def FUnit.valid : FUnit → Prop
+  | .single f => complete f = true
+  | _ => True
+
+def FUnit.frames : FUnit → List Frame
+  | .single f => [f]
+  | .hblock sid es prio first mid last =>
+    .headers sid es false prio first :: (mid.map (Frame.continuation sid false) ++ [.continuation sid true last])
+  | .pblock sid promised first mid last =>
+    .pushPromise sid promised false first :: (mid.map (Frame.continuation sid false) ++ [.continuation sid true last])
+
+/-- The meaning of a unit, stated without reference to the relay: one logical event carrying the
+whole header block, the opening frame's END_STREAM, priority and promised id. -/
+def FUnit.call : FUnit → Call
+  | .single (.data sid es payload pad) => .data sid (flowLen payload pad) payload es
+  | .single (.headers sid es _ prio frag) => .header sid frag es (prio.getD Prio.zero)
+  | .single (.pushPromise sid promised _ frag) => .pushPromise sid promised frag
+  | .single (.continuation ..) => .nilContinuation
+  | .single (.priority sid p) => .priority sid p
+  | .single (.rst sid code) => .rst sid code
+  | .single (.settings kvs) => .settings kvs
+  | .single .settingsAck => .settingsAck
+  | .single (.ping ack data) => .ping ack data
+  | .single (.goaway last code debug) => .goaway last code debug
+  | .single (.windowUpdate sid inc) => .windowUpdate sid inc
+  | .hblock sid es prio first mid last => .header sid (first ++ mid.flatten ++ last) es (prio.getD Prio.zero)
+  | .pblock sid promised first mid last => .pushPromise sid promised (first ++ mid.flatten ++ last)
+
+/-- **Any framing.** Whatever state earlier blocks left behind, a valid frame sequence is
+dispatched to exactly the calls its units mean — header blocks whole, END_STREAM exactly where
+the HEADERS frame had it (F08a: not invented on continued headers), for every way of cutting
+the blocks into CONTINUATION frames. -/
+theorem dispatch_units (d : DState) (us : List FUnit) (hv : ∀ u ∈ us, u.valid) :
+    (dispatchAll d (us.flatMap FUnit.frames)).2 = us.map FUnit.call := by
+  induction us generalizing d with
+  | nil => simp [dispatchAll]
+  | cons u us ih =>
+    have hvu := hv u (by simp)
+    have ih' := fun d' => ih d' (fun v hvm => hv v (by simp [hvm]))
+    simp only [List.flatMap_cons, List.map_cons]
+    rw [dispatchAll_append]
+    simp only [ih']
+    cases u with
+    | single f =>
+      cases f <;> simp_all [FUnit.frames, FUnit.call, FUnit.valid, complete, dispatchAll, dispatch]
+    | hblock sid es prio first mid last =>
+      simp only [FUnit.frames, FUnit.call, dispatchAll, dispatch, Bool.false_eq_true, if_false]
+      rw [dispatchAll_conts]
+      simp [completeCall]
+    | pblock sid promised first mid last =>
+      simp only [FUnit.frames, FUnit.call, dispatchAll, dispatch, Bool.false_eq_true, if_false]
+      rw [dispatchAll_conts]
+      simp [completeCall]
+
+/-- **Control frames.** SETTINGS, SETTINGS-ack, PING and GOAWAY are written to the destination at
+once and unchanged; they never enter, leave or reorder a stream queue. -/
+theorem control_frames_identical (s : Sys) (d : Dir) (enc : Bytes) (order : List Nat) :
+    (∀ ack data, applyCall s d enc order (.ping ack data) = some (s.on d (.ctl (.ping ack data)))) ∧
+    (∀ l c dbg, applyCall s d enc order (.goaway l c dbg) = some (s.on d (.ctl (.goaway l c dbg)))) ∧
+    applyCall s d enc order .settingsAck = some (s.on d (.ctl .settingsAck)) ∧
+    (∀ kvs, applyCall s d enc order (.settings kvs) =
+        some ((applySettings s d.peer order kvs).on d (.ctl (.settings kvs)))) ∧
+    (∀ (r : Relay) (c : Ctl), (rstep r (.ctl c)).wrote = r.wrote ++ [c] ∧ (rstep r (.ctl c)).emitted = r.emitted ∧
+        (rstep r (.ctl c)).accepted = r.accepted ∧ (rstep r (.ctl c)).ob = r.ob) := by
+  refine ⟨fun _ _ => rfl, fun _ _ _ => rfl, rfl, fun _ => rfl, fun r c => ⟨rfl, rfl, rfl, rfl⟩⟩
+
+/-! ## What the sinks enqueue -/
+
+def payloadOf : QFrame → Bytes
+  | .data _ _ p => p
+  | _ => []
+
+def endStreamOf : QFrame → Bool
+  | .data _ es _ => es
+  | .headers _ es _ _ _ _ => es
+  | _ => false
+
+private theorem mkData_props (sid : Nat) (es : Bool) (cs : List Bytes) (hne : cs ≠ []) :
+    (mkData sid es cs).map payloadOf = cs ∧ (∀ f ∈ mkData sid es cs, f.sid = sid) ∧
+    (mkData sid es cs).map endStreamOf = List.replicate (cs.length - 1) false ++ [es] := by
+  induction cs with
+  | nil => exact absurd rfl hne
+  | cons c rest ih =>
+    cases rest with
+    | nil => simp [mkData, payloadOf, endStreamOf, QFrame.sid]
+    | cons c2 rest2 =>
+      have := ih (by simp)
+      obtain ⟨h1, h2, h3⟩ := this
+      refine ⟨?_, ?_, ?_⟩
+      · show payloadOf (.data sid false c) :: (mkData sid es (c2 :: rest2)).map payloadOf = _
+        rw [h1]; rfl
+      · intro f hf
+        simp only [mkData, List.mem_cons] at hf
+        rcases hf with hf | hf
+        · subst hf; rfl
+        · exact h2 f (by simpa [mkData] using hf)
+      · have : (mkData sid es (c :: c2 :: rest2)).map endStreamOf = false :: (mkData sid es (c2 :: rest2)).map endStreamOf := by
+          simp [mkData, endStreamOf]
+        rw [this, h3]
+        simp [List.replicate_succ]
+
+/-- **DATA.** One `Data` call (any size) becomes DATA frames on the same stream whose payloads
+concatenate to the call's bytes, each at most MAX_FRAME_SIZE, END_STREAM only on the last one
+and only if the call had it. -/
+theorem data_split_faithful (sid : Nat) (es : Bool) (payload : Bytes) (max : Nat) (hm : 0 < max) :
+    let fs := mkData sid es (dataChunks max payload.length payload)
+    (fs.map payloadOf).flatten = payload ∧ (∀ f ∈ fs, f.sid = sid ∧ (payloadOf f).length ≤ max) ∧
+    fs.map endStreamOf = List.replicate (fs.length - 1) false ++ [es] := by
+  have hp := mkData_props sid es (dataChunks max payload.length payload) (dataChunks_ne_nil _ _ _)
+  obtain ⟨h1, h2, h3⟩ := hp
+  have hlen : (mkData sid es (dataChunks max payload.length payload)).length = (dataChunks max payload.length payload).length := by
+    have := congrArg List.length h1; simpa using this
+  refine ⟨?_, ?_, ?_⟩
+  · simp only [h1]; exact dataChunks_flatten max hm _ _ (Nat.le_refl _)
+  · intro f hf
+    refine ⟨h2 f hf, ?_⟩
+    have : payloadOf f ∈ (mkData sid es (dataChunks max payload.length payload)).map payloadOf := List.mem_map_of_mem hf
+    rw [h1] at this
+    exact dataChunks_le _ _ _ _ this
+  · simp only [hlen]; exact h3
+
+/-- **Header block chunks.** `splitIntoChunks` loses nothing and respects both bounds. -/
+theorem chunks_concat (firstMax contMax : Nat) (data : Bytes) (hc : 0 < contMax) :
+    (splitIntoChunks firstMax contMax data).flatten = data ∧
+    (splitIntoChunks firstMax contMax data).head?.map List.length ≤ some firstMax ∧
+    (∀ c ∈ (splitIntoChunks firstMax contMax data).tail, c.length ≤ contMax ∧ 0 < c.length) ∧
+    splitIntoChunks firstMax contMax data ≠ [] := by
+  refine ⟨?_, ?_, ?_, by simp [splitIntoChunks]⟩
+  · simp only [splitIntoChunks, List.flatten_cons]
+    rw [chunkRest_flatten contMax hc _ _ (by simp)]
+    exact List.take_append_drop _ _
+  · simp only [splitIntoChunks, List.head?_cons, Option.map_some, List.length_take]
+    exact Option.some_le_some.mpr (Nat.min_le_left _ _)
+  · intro c hcm
+    simp only [splitIntoChunks, List.tail_cons] at hcm
+    refine ⟨chunkRest_le _ _ _ c hcm, ?_⟩
+    have key : ∀ (fuel : Nat) (rem : Bytes), ∀ c ∈ chunkRest contMax fuel rem, 0 < c.length := by
+      intro fuel
+      induction fuel with
+      | zero => intro rem c h; simp [chunkRest] at h
+      | succ n ih =>
+        intro rem c h
+        unfold chunkRest at h
+        split at h
+        · simp at h
+        · rename_i hne
+          simp only [List.mem_cons] at h
+          rcases h with h | h
+          · subst h
+            cases rem with
+            | nil => simp at hne
+            | cons x xs => simp; omega
+          · exact ih _ c h
+    exact key _ _ c hcm
+
+/-- Frames enqueued by a whole history. -/
+def acceptedRun : Relay → List RIn → List QFrame
+  | _, [] => []
+  | r, i :: is => acceptedOf r i ++ acceptedRun (rstep r i) is
+
+/-- Everything ever enqueued is, in order, the image (`acceptedOf`) of the sink calls: one queued
+frame per HEADERS / PUSH_PROMISE / PRIORITY / RST_STREAM call with the same fields, END_STREAM,
+priority, promised id, code; the DATA frames of `data_split_faithful` per `Data` call. -/
+theorem accepted_is_image_of_calls (r : Relay) (is : List RIn) :
+    (run r is).accepted = r.accepted ++ acceptedRun r is := by
+  induction is generalizing r with
+  | nil => simp [run, acceptedRun]
+  | cons i is ih =>
+    have := ih (rstep r i)
+    simp only [run, List.foldl_cons] at this ⊢
+    rw [this, rstep_accepted, acceptedRun, List.append_assoc]
+
+/-- **Per-stream order and content; no loss, no duplication.** After any history — any
+interleaving of streams, any window schedule (WINDOW_UPDATEs, INITIAL_WINDOW_SIZE changes), any
+map iteration orders — on every stream the frames put on the output channel followed by the
+frames still queued are exactly, in order, the image of that stream's calls: what has left is a
+prefix of what must leave, nothing is dropped, duplicated or reordered within a stream. -/
+theorem per_stream_order_and_content (is : List RIn) (hok : OkRun {} is) (s : Nat) :
+    onS s (run {} is).emitted ++ ((run {} is).ob s).q = onS s (acceptedRun {} is) := by
+  have hg := (run_invariant is good0_init allstuck_init hok).1
+  have := hg.conserve s
+  rw [accepted_is_image_of_calls] at this
+  simpa using this
+
+/-! ## Header blocks and the peer's HPACK state -/
+
+/-- Header blocks reach the peer in the order the relay's HPACK encoder produced them (stamps
+0, 1, 2, …): the only order in which the peer's decoder reconstructs the same field lists. -/
+def EncodeOrder (r : Relay) : Prop := blocks r.emitted = List.range (blocks r.emitted).length
+
+/-- The full statement: after every admissible history. It is FALSE for the code as it is. -/
+def HeaderBlocksLeaveInEncodeOrder : Prop := ∀ is : List RIn, OkRun {} is → EncodeOrder (run {} is)
+
+/-- F08b witness (DESIGN §3 C08): the receiver advertised INITIAL_WINDOW_SIZE 0; stream 1 sends
+HEADERS, DATA and trailers, stream 3 sends HEADERS; then the receiver opens stream 1. -/
+def f08b : List RIn :=
+  [.initWin 0 [], .header 1 [1] false Prio.zero [0], .data 1 [7, 7, 7, 7, 7] false,
+   .header 1 [2] true Prio.zero [0], .header 3 [3] true Prio.zero [0], .windowUpdate 1 100 []]
+
+/-- The blocks leave as 0, 2, 1: stream 3's block, encoded last, overtakes stream 1's trailers. -/
+theorem header_blocks_leave_in_encode_order_counterexample : ¬ HeaderBlocksLeaveInEncodeOrder := by
+  intro h
+  have h1 := h f08b (okRunB_sound _ _ (by decide))
+  have h2 : blocks (run {} f08b).emitted = [0, 2, 1] := by decide
+  simp [EncodeOrder, h2] at h1
+  exact absurd h1 (by decide)
+
+/-- Histories outside the F08b class: every step is admissible and no header block is encoded
+while a block encoded earlier is still queued on another stream. -/
+def SafeRun : Relay → List RIn → Prop
+  | _, [] => True
+  | r, i :: is => OkStep r i ∧ SafeIn r i ∧ SafeRun (rstep r i) is
+
+theorem header_blocks_leave_in_encode_order_partial (is : List RIn) (hs : SafeRun {} is) :
+    EncodeOrder (run {} is) ∧ (blocks (run {} is).emitted).length ≤ (run {} is).nextStamp := by
+  have gen : ∀ (r : Relay) (is : List RIn), Good0 r → Jn r r.nextStamp → SafeRun r is →
+      Jn (run r is) (run r is).nextStamp := by
+    intro r is
+    induction is generalizing r with
+    | nil => intro _ h _; exact h
+    | cons i is ih =>
+      intro hg hj hs
+      exact ih (rstep r i) (rstep_good0 hg i) (rstep_Jn hg hj i hs.2.1) hs.2.2
+  have hj0 : Jn ({} : Relay) (({} : Relay).nextStamp) := ⟨0, by simp, by simp⟩
+  obtain ⟨s0, -, h2⟩ := gen {} is good0_init hj0 hs
+  refine ⟨prefix_of_range h2, ?_⟩
+  have := congrArg List.length h2
+  simp at this; omega
+
+/-- Executable form of `SafeRun`. -/
+def safeInB (r : Relay) : RIn → Bool
+  | .header sid _ _ _ _ => r.keys.all fun t => t == sid || (blocks (r.ob t).q).isEmpty
+  | .push sid _ _ _ => r.keys.all fun t => t == sid || (blocks (r.ob t).q).isEmpty
+  | _ => true
+
+def safeRunB : Relay → List RIn → Bool
+  | _, [] => true
+  | r, i :: is => okStepB r i && safeInB r i && safeRunB (rstep r i) is
+
+theorem safeRunB_sound (r : Relay) (is : List RIn) (h : safeRunB r is = true) : SafeRun r is := by
+  induction is generalizing r with
+  | nil => trivial
+  | cons i is ih =>
+    simp only [safeRunB, Bool.and_eq_true] at h
+    refine ⟨okStepB_sound r i h.1.1, ?_, ih _ h.2⟩
+    have h2 := h.1.2
+    cases i with
+    | header sid fields es prio enc =>
+      simp only [safeInB, List.all_eq_true, Bool.or_eq_true, beq_iff_eq, List.isEmpty_iff] at h2
+      simp only [SafeIn]
+      intro t ht hne
+      rcases h2 t ht with h3 | h3
+      · exact absurd h3 hne
+      · exact h3
+    | push sid promised fields enc =>
+      simp only [safeInB, List.all_eq_true, Bool.or_eq_true, beq_iff_eq, List.isEmpty_iff] at h2
+      simp only [SafeIn]
+      intro t ht hne
+      rcases h2 t ht with h3 | h3
+      · exact absurd h3 hne
+      · exact h3
+    | _ => simp [SafeIn]
+
+/-- Non-vacuity: trailers waiting behind blocked DATA are still in the safe class as long as no
+other stream encodes a block meanwhile; the blocks then leave in order. -/
+def safeSample : List RIn :=
+  [.initWin 0 [], .header 1 [1] false Prio.zero [0], .data 1 [7, 7] false, .header 1 [2] true Prio.zero [0],
+   .windowUpdate 1 100 [], .header 3 [3] true ⟨1, false, 16⟩ [0, 0]]
+
+example : SafeRun {} safeSample := safeRunB_sound _ _ (by decide)
+example : blocks (run {} safeSample).emitted = [0, 1, 2] := by decide
+example : safeRunB {} f08b = false := by decide
+
+/-! ## Priority flag (F08d) -/
+
+/-- What `queuedHeaderFrame.send` puts on the wire: `http2.Framer.WriteHeaders` only writes a
+priority that is not `IsZero()`. -/
+def wirePrio (p : Prio) : Option Prio := if p.isZero then none else some p
+
+/-- The priority a HEADERS frame carried (present or absent) arrives unchanged, unless it was
+present with all-zero contents. -/
+theorem priority_flag_partial (prio : Option Prio) (h : prio ≠ some Prio.zero) :
+    wirePrio (prio.getD Prio.zero) = prio := by
+  cases prio with
+  | none => simp [wirePrio, Prio.isZero]
+  | some p =>
+    have : p ≠ Prio.zero := fun e => h (by rw [e])
+    simp [wirePrio, Prio.isZero, this]
+
+/-- F08d: a priority present with dependency 0, non-exclusive, weight field 0 loses its flag. -/
+theorem priority_flag_counterexample : wirePrio ((some Prio.zero).getD Prio.zero) ≠ some Prio.zero := by
+  decide
+
+/-! ## Facts regenerated from `/repo` on every run (`go/cmd/vextract/facts_c08.go`) -/
+
+/-- The protocol constants of `h2/relay.go` are the ones the model starts from and subtracts. -/
+theorem facts_relay_constants :
+    Generated.H2Relay.initialMaxFrameSize = ({} : Relay).maxFrame ∧
+    Generated.H2Relay.defaultInitialWindowSize = ({} : Relay).initWin ∧
+    (Generated.H2Relay.defaultInitialWindowSize : Int) = ({} : Relay).connWin ∧
+    Generated.H2Relay.headersPriorityMetadataLength = 5 ∧ Generated.H2Relay.pushPromiseMetadataLength = 4 := by
+  decide
+
+/-- `processFrame` stores the HEADERS frame's own END_STREAM flag and `headerContinuation.complete`
+passes that stored flag on (F08a fix), as `dispatch` does. -/
+theorem facts_continued_headers_keep_end_stream : Generated.H2Relay.continuedHeadersKeepEndStream = true := by
+  decide
+
+/-- `forwardPreface` reads the whole 24-byte preface (F08c fix); the transport may deliver it in
+arbitrarily small pieces. Outside the relay model; visible only end to end. -/
+theorem facts_preface_read_in_full : Generated.H2Relay.prefaceReadInFull = true := by decide
+
+end Martian.Props.C08
